@@ -19,6 +19,7 @@ type WSStream struct {
 	HandshakeLen int
 	Messages     []WSMessage
 	FrameBounds  [][2]int // [start,end) of every complete frame
+	FrameOps     []int    // opcode of every complete frame
 	Truncated    bool     // the stream ends inside a frame or inside a fragmented message
 	Errors       []string // framing violations (interleaving, bad continuation, reserved bits)
 }
@@ -95,6 +96,7 @@ func ParseWS(b []byte) *WSStream {
 		}
 		p += n
 		s.FrameBounds = append(s.FrameBounds, [2]int{start, p})
+		s.FrameOps = append(s.FrameOps, op)
 		switch {
 		case op >= 8: // control frame
 			if !fin || n > 125 {
